@@ -347,7 +347,6 @@ fn base_oracles(cfg: &Cfg, model: &Model, item: &Item, opts: &RunOpts, sink: &mu
                     idx: item.idx,
                     stage: opts.stage.clone(),
                 });
-                continue;
             }
             if opts.monitor {
                 // stateless items: only the invariants part is meaningful for TCP data, the
